@@ -42,7 +42,8 @@ def pick(rng, weights):
 
 
 class Gen:
-    def __init__(self, seed, profile='all', feats=None, auto=False, size=(20, 90)):
+    def __init__(self, seed, profile='all', feats=None, auto=False, size=(20, 90), suffix=None):
+        self.suffix = suffix
         self.rng = random.Random(seed)
         self.profile = profile
         self.w = PROFILES[profile]
@@ -303,6 +304,8 @@ class Gen:
                     # make garbage and collect right away so that the fuse fires inside the collector
                     a = self.slot(occ, True); main.append(f'drop s{a}'); occ[a] = False; main.append('collect')
             elif c == 'panic': main.append('panic')
+        if self.suffix:
+            main += self.suffix
         return self.render(main)
 
     def render(self, main):
@@ -315,8 +318,8 @@ class Gen:
         return lines
 
 
-def gen_program(seed, profile='all', feats=None, auto=False, size=(20, 90)):
-    g = Gen(seed, profile, feats, auto, size)
+def gen_program(seed, profile='all', feats=None, auto=False, size=(20, 90), suffix=None):
+    g = Gen(seed, profile, feats, auto, size, suffix)
     return g.program()
 
 
